@@ -308,6 +308,65 @@ theorem raze_leaf (lo' : Ops) (u : Nat) (who : Who) (F : String) (s s' : St) (f 
     | some g => simp [hfn]
 
 
+theorem filter_not_contains_filter (A : List Nat) (p : Nat → Bool) :
+    A.filter (fun x => !(A.filter p).contains x) = A.filter (fun x => !p x) := by
+  apply List.filter_congr
+  intro x hx
+  have hc : (A.filter p).contains x = p x := by
+    cases hp : p x with
+    | true => simp [List.mem_filter, hx, hp]
+    | false => simp [List.mem_filter, hp]
+  rw [hc]
+
+/-- **Pruning the clones of one frame, whatever their positions.**  The frame loop of `Framer.prune` on a frame whose
+clone auxiliaries have no auxiliaries below them: EVERY clone of the frame — adjacent or not, named or insular — is
+pruned, dropped from the frame's aux list and from the framer's `auxes`, ends not entered and unregistered; the
+original (plain) auxiliaries keep their places; nothing else changes. -/
+theorem pruneFrame_leaf (lo' : Ops) (u : Nat) (F : String) (s s' : St) (f : Frame)
+    (hf : s.frameOf u F = .ok f) (hnd : f.auxes.Nodup)
+    (hl : ∀ a ∈ f.auxes.filter (isCloneAux s), a ≠ u ∧ LeafObj s a)
+    (h : pruneFrame (nextOps lo') u F s = .ok s') :
+    (∃ f', s'.frameOf u F = .ok f' ∧ f'.auxes = f.auxes.filter (fun x => !isCloneAux s x) ∧
+        { f' with auxes := f.auxes } = f) ∧
+    (∀ fn, fn ≠ F → s'.frameOf u fn = s.frameOf u fn) ∧
+    (∀ v, v ≠ u → v ∉ f.auxes.filter (isCloneAux s) → s'.get? v = s.get? v) ∧
+    (∀ a ∈ f.auxes.filter (isCloneAux s), ∃ oa oa', s.get? a = some oa ∧ s'.get? a = some oa' ∧
+        oa'.ctl.active = none ∧ lookup s'.names oa.name ≠ some a) ∧
+    (∀ n x, lookup s'.names n = some x → lookup s.names n = some x) := by
+  unfold pruneFrame at h
+  rw [hf] at h
+  simp only [] at h
+  have hfo : ∃ ou, s.get? u = some ou ∧ ou.frame? F = some f := by
+    unfold St.frameOf at hf
+    cases hg : s.get? u with
+    | none => simp [hg] at hf
+    | some ou =>
+      simp only [hg] at hf
+      cases hq : ou.frame? F with
+      | none => simp [hq] at hf
+      | some g => simp [hq] at hf; exact ⟨ou, rfl, by rw [hq, hf]⟩
+  obtain ⟨ou, hou, hfr⟩ := hfo
+  have hR := razed_forEach lo' u F s (f.auxes.filter (isCloneAux s)) [] s (Razed.start u F s ou hou) hl
+    (by simpa using hnd.sublist List.filter_sublist) s' h
+  simp only [List.nil_append] at hR
+  obtain ⟨ou', oi, hu, hui, hfrm⟩ := hR.self
+  have : ou' = ou := by rw [hou] at hu; injection hu with hu; exact hu.symm
+  subst this
+  refine ⟨?_, ?_, hR.others, hR.gone, hR.names⟩
+  · refine ⟨{ f with auxes := (f.auxes.filter (isCloneAux s)).foldl List.erase f.auxes }, ?_, ?_, rfl⟩
+    · unfold St.frameOf
+      rw [hui]
+      simp only [hfrm F, hfr, Option.map_some, if_true]
+    · show (f.auxes.filter (isCloneAux s)).foldl List.erase f.auxes = _
+      rw [foldl_erase_eq_filter _ _ hnd, filter_not_contains_filter]
+  · intro fn hfn
+    unfold St.frameOf
+    rw [hui, hou]
+    simp only [hfrm fn]
+    cases ou'.frame? fn with
+    | none => rfl
+    | some g => simp [hfn]
+
 /-! ### rearing -/
 
 /-- **Rearing** (`Rearer.action` up to the presolve / resolve of the new clone): the tag is `<original's tag><n>`
